@@ -94,4 +94,20 @@ CHECKS = {
         "assumptions": ["a process crash in receptor code while running this workload is a violation; a watchdog timeout with a goroutine "
                         "dump showing receptor code spinning or waiting on a lock is a wedge"],
     },
+    "C11": {
+        "level": "exploration",
+        "level_text": "model-based: seeded histories of handshakes, later updates, session ends and simultaneous same-ID handshakes by "
+                      "scripted peers against a real node with drawn allow-lists, default costs and per-node overrides; an executable "
+                      "admission model written from the property text is stepped in lockstep and compared with Status() after every step; "
+                      "plus the two-real-nodes-one-ID scenario on 3-5 node meshes",
+        "level_note": "sampling; the reject message itself is best effort in the code (writer/close race) and only counted; same-ID claimants "
+                      "attach to different neighbours and start >= 1.1 s apart",
+        "quick": {"runs": 800, "per_proc": 50},
+        "thorough": {"runs": 100000, "per_proc": 250},
+        "rule": "one run = 1-3 backends (allow-list y/n, cost, override) x 2-5 session slots x 4-30 steps (hello/update/close/pair) or one "
+                "duplicate-ID scenario; distinct_nontrivial counts distinct (backends, allow-lists, slots, step-kind set) / (dup n, attach "
+                "points, gap) classes",
+        "real": MESH_REAL, "stub": MESH_STUB,
+        "assumptions": ["forged updates about real nodes are not sent here (C06/C07)"],
+    },
 }
